@@ -4,7 +4,8 @@ import UF.Model.Engine
   `rules/network.go` (`IsHostLevelNetworkRule`).
   `GetDNSBasicRule` belongs to another work group: it is the parameter `basic`.
 -/
-namespace UF
+namespace UF.B
+open UF UF.Bytes
 
 /-- `IsHostLevelNetworkRule`, bit for bit (including the `(e & H) | (e ^ H) == H` idiom). -/
 def isHostLevel (r : NetRule) : Bool :=
@@ -17,7 +18,7 @@ def isHostLevel (r : NetRule) : Bool :=
   else true
 
 /-- `HostRule.Match` (the single-name fast path, then the loop). -/
-def HostRule.matches (r : HostRule) (host : Bytes) : Bool :=
+def hostRuleMatches (r : HostRule) (host : Bytes) : Bool :=
   (decide (r.hostnames.length = 1) && r.hostnames.head? == some host) || r.hostnames.any (· == host)
 
 /-- `RetrieveNetworkRule`: the rule at the index if it is a network rule, else nil. -/
@@ -58,7 +59,7 @@ def DnsEngine.matchLookupTable (hf : HashFns) (retrieve : Idx → Option Rule) (
     (host : Bytes) : List HostRule :=
   (hget [] d.hosts (hf.h host)).filterMap fun idx =>
     match retrieveHost retrieve idx with
-    | some hr => if hr.matches host then some hr else none
+    | some hr => if hostRuleMatches hr host then some hr else none
     | none => none
 
 /-- `DNSEngine.MatchRequest`; `q` is the hostname request built by `getRequestFromPool`
@@ -75,4 +76,4 @@ def DnsEngine.matchRequest (hf : HashFns) (k : Nat) (retrieve : Idx → Option R
       if rr.isEmpty then { networkRules := nrs }
       else { networkRules := nrs, v4 := rr.filter (·.ip.is4), v6 := rr.filter (!·.ip.is4), matched := true }
 
-end UF
+end UF.B
